@@ -154,6 +154,14 @@ class PoolWakeState {
   // when the thread wakes. Returns -1 if no sleeping threads.
   DISPENSO_DLL_ACCESS int32_t claimAndWakeOne();
 
+  // The two halves of claimAndWakeOne, for callers that must publish work for the claimed thread
+  // before it is woken: claimOne() claims a sleeper (clears its bit) without waking it and returns
+  // its index or -1; wakeClaimed() then bumps and wakes that thread's waiter.
+  DISPENSO_DLL_ACCESS int32_t claimOne();
+  void wakeClaimed(int32_t threadIdx) {
+    waiterFor(threadIdx).bumpAndWake();
+  }
+
   // Wake threads in range [0, count) that are sleeping. Serial fork-join wake:
   // for each affected group, bumps the epoch and issues a futex syscall iff
   // sleepers exist in that group. O(numGroups) syscalls in the worst case;
